@@ -110,7 +110,7 @@ U.fn('token_stream.rs', 'TokenStream::take_error', requires=['old(self).wf()'],
               C('old(self).has_error() ==> ret.is_some() && eco_view(&ret.unwrap()).len() > 0', 'C02', name='parked message is returned and non-empty')])
 
 # ----------------------------------------------------------------------------- lexer.rs
-U.prepend('lexer.rs', 'broadcast use {ax_pat_char, ax_pat_str, ax_pat_fn, ax_yes_fn, ax_no_fn, ax_yes_fnref, ax_no_fnref, ax_at_str, ax_at_fn, ax_u8len, ax_str_bytes, ax_msg_str};')
+U.prepend('lexer.rs', 'broadcast use {ax_pat_char, ax_pat_str, ax_pat_fn, ax_pat_fnref, ax_yes_fn, ax_no_fn, ax_yes_fnref, ax_no_fnref, ax_at_str, ax_at_fn, ax_u8len, ax_str_bytes, ax_msg_str, ax_str_inj};')
 U.append('lexer.rs', '''
 impl<'a> Lexer<'a> {
     pub closed spec fn chars(&self) -> Seq<char> { sc_src(&self.s) }
@@ -421,3 +421,5 @@ U.fn('parser.rs', 'ParserBase::skip', requires=PINV,
 
 import grammar_contracts  # noqa: E402  (adds the grammar functions to U)
 grammar_contracts.add(U)
+import lexer_c14  # noqa: E402
+lexer_c14.add(U)
